@@ -494,6 +494,7 @@ class Analyzer:
         self.inferred_kinds = {}
         self.module_const_fn = {}
         self.lambda_nodes = {}  # id(Lambda node) -> node                             } side tables of the callable descriptors
+        self.mcalls = {}  # id(methodcaller(name, *args) call node) -> (method names, bound, keywords)
         self.partials = {}  # id(partial(...) call node) -> (callables, bound, keywords) } carried in AV.fn
         self.recmethods = {}  # id(Attribute node) -> (record value, method name)       }
         self.boundmethods = {}  # id(Attribute node) -> (receiver value, method name): `c.set_output` used as a value
@@ -501,6 +502,41 @@ class Analyzer:
         for (rel, q), fi in repo.funcs.items():
             if fi.cls and q.count(".") == 1 and (rel, q) not in repo.inherited:
                 self.class_methods.setdefault(fi.node.name, []).append(fi)
+        # methods a class decorator of the package installs on Circuit / BlackBox when the class statement runs:
+        # `setattr(cls, name, partialmethod(cls._prunable, stage=..., loads=...))` - a call of the installed name is a call of the
+        # method(s) the stored value is made from (keyword-bound only: the positional parameters keep their places)
+        self.installed_methods = {}
+        self.installed_funcs = set()  # module-level functions stored on a class: their first parameter is the object, whatever its name
+        for (r_, c_), kind_ in self.class_kind.items():
+            cdef = repo.classes.get((r_, c_))
+            for dec in (cdef.decorator_list if cdef is not None else ()):
+                dfi = repo.func_of_callee(r_, dec.func if isinstance(dec, ast.Call) else dec)
+                if dfi is None:
+                    continue
+                given = {k.arg for k in dec.keywords if k.arg} | {a.value for a in dec.args if isinstance(a, ast.Constant) and isinstance(a.value, str)} if isinstance(dec, ast.Call) else set()
+                cls_param = next(iter(func_params(dfi.node)), None)
+                for x in ast.walk(dfi.node):
+                    name_expr = value = None
+                    if isinstance(x, ast.Call) and isinstance(x.func, ast.Name) and x.func.id == "setattr" and len(x.args) == 3:
+                        name_expr, value = x.args[1], x.args[2]
+                    elif isinstance(x, ast.Assign) and len(x.targets) == 1 and isinstance(x.targets[0], ast.Attribute) and isinstance(x.targets[0].value, ast.Name) and x.targets[0].value.id == cls_param:
+                        # `cls._claim_names = _claim_names`: a function of the decorator's module becomes a method
+                        name_expr, value = ast.Constant(value=x.targets[0].attr), x.value
+                    if value is None:
+                        continue
+                    fn_targets = [f_ for v_ in ast.walk(value) if isinstance(v_, ast.Name) for f_ in [repo.func_of_name(dfi.file, v_.id)] if f_ is not None and f_.cls is None and func_params(f_.node)]
+                    if fn_targets and isinstance(name_expr, ast.Constant) and not any(isinstance(v_, ast.Call) and len(v_.args) > 1 for v_ in ast.walk(value)):
+                        for f_ in fn_targets:
+                            self.installed_methods.setdefault((kind_, name_expr.value), []).append(f_)
+                            self.installed_funcs.add((f_.file, f_.qual))
+                        continue
+                    names = {name_expr.value} if isinstance(name_expr, ast.Constant) and isinstance(name_expr.value, str) else given
+                    positional_bound = any(isinstance(v_, ast.Call) and (dotted(v_.func) or "").split(".")[-1] in ("partialmethod", "partial") and len(v_.args) > 1 for v_ in ast.walk(value))
+                    targets = [m for v_ in ast.walk(value) if isinstance(v_, ast.Attribute) and isinstance(v_.value, ast.Name)
+                               for m in self.class_methods.get(v_.attr, []) if self.class_kind.get((m.file, m.cls)) == kind_]
+                    if targets and not positional_bound:
+                        for nm_ in names:
+                            self.installed_methods.setdefault((kind_, nm_), []).extend(t for t in targets if t not in self.installed_methods.get((kind_, nm_), []))
         self.param_kinds = _AliasDict({}, repo.inherited)
         for k, fi in repo.funcs.items():
             if k in repo.inherited:
@@ -617,7 +653,7 @@ class FuncAnalysis:
                 for (p, part) in getattr(self.ret_av, slot):
                     self.s.ret.add((slot, p, part))
             self.s.ret_kind = self.ret_av.kind
-            self.s.ret_fn = frozenset(d for d in self.ret_av.fn if d[0] in ("func", "lambda", "partial", "hclass", "accessor"))
+            self.s.ret_fn = frozenset(d for d in self.ret_av.fn if d[0] in ("func", "lambda", "partial", "hclass", "accessor", "mcall"))
         if self.ret_pos_avs:
             self.s.ret_pos = [({(slot, p, part) for slot in ("tags", "g", "r", "elems") for (p, part) in getattr(av_, slot)}, av_.kind) for av_ in self.ret_pos_avs]
         return self.s
@@ -767,7 +803,7 @@ class FuncAnalysis:
         if isinstance(v, (ast.Yield, ast.YieldFrom)):
             self.s.returns_seen += 1
             av = self.ev(v.value) if v.value is not None else FRESH
-            self._ret(AV((), None, elems=flat(av)))
+            self._ret(AV((), None, elems=flat(av), fn=av.fn))  # (a generator of callables: iterating it yields them)
             return
         self.ev(v)
 
@@ -1263,6 +1299,13 @@ class FuncAnalysis:
             if inner:
                 self.an.partials[id(n)] = (inner, list(argav[1:]), {k: v for k, v in kwav.items() if k})
                 return AV(fn={("partial", id(n))})
+        if cn_ == "methodcaller" and n.args and (len(n.args) > 1 or n.keywords) and not (isinstance(f, ast.Name) and f.id in self.env):
+            # methodcaller("add", net, "input"): calling it on an object calls that method with the arguments kept here
+            a0 = n.args[0]
+            names = [a0.value] if isinstance(a0, ast.Constant) and isinstance(a0.value, str) else (list(self.const_vars[a0.id]) if isinstance(a0, ast.Name) and a0.id in self.const_vars else None)
+            if names and all(k.arg for k in n.keywords) and not any(isinstance(a, ast.Starred) for a in n.args):
+                self.an.mcalls[id(n)] = (names, list(argav[1:]), {k: v for k, v in kwav.items() if k})
+                return AV(fn={("mcall", id(n))})
         if cn_ in ("methodcaller", "attrgetter", "itemgetter") and len(n.args) == 1 and not n.keywords and not (isinstance(f, ast.Name) and f.id in self.env):
             a0 = n.args[0]
             names = [a0.value] if isinstance(a0, ast.Constant) and isinstance(a0.value, str) else (list(self.const_vars[a0.id]) if isinstance(a0, ast.Name) and a0.id in self.const_vars else None)
@@ -1487,6 +1530,14 @@ class FuncAnalysis:
                     av = self.call_record_method(n, argav[0], d[2], argav[1:], kwav)
                 else:
                     av = self.call_method(n, argav[0], d[2], argav[1:], kwav)
+            elif d[0] == "mcall" and argav:
+                names_, bound_, bkw_ = self.an.mcalls[d[1]]
+                av = None
+                for nm_ in names_:
+                    fake = ast.copy_location(ast.Call(func=ast.copy_location(ast.Attribute(value=n.args[0] if getattr(n, "args", None) else ast.Name(id="<object>", ctx=ast.Load()), attr=nm_, ctx=ast.Load()), n),
+                                                      args=[], keywords=[]), n)
+                    r_ = (self.call_record_method if argav[0].kind == "record" else self.call_method)(fake, argav[0], nm_, list(bound_) + list(argav[1:]), {**bkw_, **kwav})
+                    av = r_ if av is None else av.join(r_)
             elif d[0] == "recmethod":
                 base, attr = self.an.recmethods[d[1]]
                 av = self.call_record_method(n, base, attr, argav, kwav)
@@ -1789,6 +1840,8 @@ class FuncAnalysis:
 
     def candidates(self, recv, mname):
         meths = self.an.class_methods.get(mname, [])
+        if recv.kind in ("Circuit", "BlackBox") and not any(self.an.class_kind.get((m.file, m.cls)) == recv.kind for m in meths) and (recv.kind, mname) in self.an.installed_methods:
+            return list(self.an.installed_methods[(recv.kind, mname)]), True  # installed by a class decorator (see Analyzer)
         if recv.kind in ("Circuit", "BlackBox"):
             c = [m for m in meths if self.an.class_kind.get((m.file, m.cls)) == recv.kind]
             return c, bool(c)
@@ -1825,6 +1878,11 @@ class FuncAnalysis:
                     # `s.update(xs)` / `l.extend(xs)` / `s |= xs` put the *elements* of xs into the container, `add` / `append` the object itself
                     carried |= (flat(elem_of(a)) | bb_tags(a)) if mname in ("update", "extend", "__ior__", "intersection_update", "difference_update", "symmetric_difference_update") and a.kind != "record" else flat(a)
                 self.store_into(n.func.value, "elems", carried)
+                # callables put into a local container (`calls.append(methodcaller(...))`) are what iterating it may yield
+                fnset = frozenset().union(*[a.fn for a in allargs]) if allargs else frozenset()
+                if fnset and isinstance(n.func.value, ast.Name) and n.func.value.id in self.env and mname in ("append", "add", "insert", "extend", "update", "appendleft", "setdefault"):
+                    cur = self.env[n.func.value.id]
+                    self.env[n.func.value.id] = AV(cur.tags, cur.kind, cur.g, cur.r, cur.elems, cur.fields, cur.cls, fn=cur.fn | fnset)
             if mname in ("pop", "popitem", "popleft", "setdefault", "get"):
                 return elem_of(recv)
             return FRESH
@@ -1938,8 +1996,8 @@ class FuncAnalysis:
     def apply_summary(self, n, summ, argav, kwav, recv):
         params = list(summ.params)
         actual = {}
-        if recv is not None and params and params[0] == "self":
-            actual["self"] = recv
+        if recv is not None and params and (params[0] == "self" or (summ.fi.file, summ.fi.qual) in self.an.installed_funcs):
+            actual[params[0]] = recv
             params_rest = params[1:]
         else:
             params_rest = params
